@@ -4,7 +4,13 @@ import (
 	"reflect"
 	"sort"
 
+	bgvpoly "github.com/tuneinsight/lattigo/v6/circuits/bgv/polynomial"
+	ckkspoly "github.com/tuneinsight/lattigo/v6/circuits/ckks/polynomial"
+	clt "github.com/tuneinsight/lattigo/v6/circuits/common/lintrans"
+	"github.com/tuneinsight/lattigo/v6/core/rgsw"
+	"github.com/tuneinsight/lattigo/v6/core/rgsw/blindrot"
 	"github.com/tuneinsight/lattigo/v6/core/rlwe"
+	"github.com/tuneinsight/lattigo/v6/multiparty"
 	"github.com/tuneinsight/lattigo/v6/schemes/bgv"
 	"github.com/tuneinsight/lattigo/v6/schemes/ckks"
 )
@@ -25,6 +31,15 @@ func registryAudit() map[string]any {
 			codec[n] = true
 		}
 	}
+	set := func(names ...string) map[string]bool {
+		m := map[string]bool{}
+		for _, n := range names {
+			m[n] = true
+		}
+		return m
+	}
+	mp := set("GenShare", "GenShareRoundOne", "GenShareRoundTwo", "AggregateShares", "GenPublicKey", "GenRelinearizationKey", "GenEvaluationKey", "GenGaloisKey",
+		"KeySwitch", "GenShamirSecretShare", "GenAdditiveShare", "AllocateShare", "SampleCRP", "AllocateThresholdSecretShare", "GenShamirPolynomial")
 	types := []struct {
 		name string
 		t    reflect.Type
@@ -38,6 +53,20 @@ func registryAudit() map[string]any {
 		{"rlwe.Encryptor", reflect.TypeOf(&rlwe.Encryptor{}), codec},
 		{"rlwe.Decryptor", reflect.TypeOf(&rlwe.Decryptor{}), codec},
 		{"rlwe.KeyGenerator", reflect.TypeOf(&rlwe.KeyGenerator{}), codec},
+		{"rgsw.Evaluator", reflect.TypeOf(&rgsw.Evaluator{}), set("ExternalProduct", "Automorphism", "ApplyEvaluationKey", "Relinearize", "Trace", "PartialTracesSum", "Replicate", "InnerFunction", "AutomorphismHoisted")},
+		{"blindrot.Evaluator", reflect.TypeOf(&blindrot.Evaluator{}), set("Evaluate", "ExternalProduct")},
+		{"rlwe.RingPackingEvaluator", reflect.TypeOf(&rlwe.RingPackingEvaluator{}), set("Expand", "Pack", "Extract", "ExtractNaive", "Repack", "RepackNaive", "SplitNew", "MergeNew", "Split", "Merge")},
+		{"lintrans.Evaluator", reflect.TypeOf(&clt.Evaluator{}), set("EvaluateMany", "EvaluateSequential", "MultiplyByDiagMatrix", "MultiplyByDiagMatrixBSGS")},
+		{"bgv polynomial.Evaluator", reflect.TypeOf(&bgvpoly.Evaluator{}), set("Evaluate")},
+		{"ckks polynomial.Evaluator", reflect.TypeOf(&ckkspoly.Evaluator{}), set("Evaluate")},
+		{"multiparty.PublicKeyGenProtocol", reflect.TypeOf(&multiparty.PublicKeyGenProtocol{}), mp},
+		{"multiparty.RelinearizationKeyGenProtocol", reflect.TypeOf(&multiparty.RelinearizationKeyGenProtocol{}), mp},
+		{"multiparty.EvaluationKeyGenProtocol", reflect.TypeOf(&multiparty.EvaluationKeyGenProtocol{}), mp},
+		{"multiparty.GaloisKeyGenProtocol", reflect.TypeOf(&multiparty.GaloisKeyGenProtocol{}), mp},
+		{"multiparty.KeySwitchProtocol", reflect.TypeOf(&multiparty.KeySwitchProtocol{}), mp},
+		{"multiparty.PublicKeySwitchProtocol", reflect.TypeOf(&multiparty.PublicKeySwitchProtocol{}), mp},
+		{"multiparty.Thresholdizer", reflect.TypeOf(&multiparty.Thresholdizer{}), mp},
+		{"multiparty.Combiner", reflect.TypeOf(&multiparty.Combiner{}), mp},
 	}
 	out := map[string]any{}
 	for _, ty := range types {
